@@ -2,6 +2,7 @@
 outlives it (statics, what the Rewriter owns, borrow kinds of the configuration, per-call construction
 sites), the random prefix is drawn once per rewriter, and the inventory of nondeterminism sources.
 Not decided: global state inside swc (interner, GLOBALS) and hash seeds of dependencies."""
+import re
 from .. import hir, gate
 from ..engine import AnchorMissing
 from ..prov import Prov, origin_str, return_exprs
@@ -344,6 +345,65 @@ def rule_nondet(check, reach):
     check.floor(R, "nondeterminism sources found", len(found), 1)
 
 
+# state that a call can change through a shared reference (interior mutability) or a unique one; the
+# crate's vocabulary, by full type path
+_STATEFUL_TY = re.compile(r"&(?:'\w+ )?mut |\bdyn |\bswc::Compiler\b|\bswc_common::comments::|\bswc_common::(?:source_map::)?SourceMap\b|\bdashmap::|\bstd::cell::|\bstd::sync::|\bstd::rc::|\bonce_cell::|\bswc_common::sync::")
+
+
+def _passes_state_on(prog, g, depth=0, seen=None):
+    """does crate function g hand a stateful value to code outside the crate (or write through it)?"""
+    seen = seen if seen is not None else set()
+    if g.rec.get("id") in seen or depth > 4:
+        return depth > 4
+    seen.add(g.rec.get("id"))
+    for n in g.nodes():
+        if n.get("k") in ("Assign", "AssignOp"):
+            return True
+        if not hir.is_call(n) or n.get("exp"):
+            continue
+        tys = [t for a in hir.call_args(n) for t in (hir.peel(a).get("ty") or "", a.get("ty") or "")]
+        if not any(_STATEFUL_TY.search(t) for t in tys):
+            continue
+        h = prog.resolve_local(n)
+        if h is None and ((n.get("callee") or {}).get("path") or "").split("core::")[-1].startswith(("std::option::Option", "std::result::Result", "option::Option", "result::Result", "bool::", "std::convert::", "convert::", "std::borrow::", "borrow::")) and not any(x.get("k") == "Closure" for a in hir.call_args(n) for x in hir.walk(a)):
+            continue  # packing a reference into an Option/Result, no code of the value's type runs
+        if h is None or _passes_state_on(prog, h, depth + 1, seen):
+            return True
+    return False
+
+
+def rule_log_args(check):
+    R = "LOG-ARGS"
+    check.rule(R, "what a log macro evaluates for its message runs only when the process-wide log level admits it: no call there receives state it could change (a `&mut`, or a type with interior mutability: the Compiler, its comment maps and source map, cells, locks, shared pointers), so the result does not depend on the log level")
+    prog = check.prog
+    sites = 0
+    for f in prog.user_fns:
+        if f.rec.get("gen"):
+            continue
+        for n in f.nodes():
+            if not hir.is_call(n) or n.get("exp"):
+                continue
+            mac = [a for a in f.ancestors(n) if (a.get("macro") or "").startswith("log::")]
+            if not mac:
+                continue
+            sites += 1
+            tys = [hir.peel(a).get("ty") or a.get("ty") or "" for a in hir.call_args(n)]
+            tys += [a.get("ty") or "" for a in hir.call_args(n)]
+            hit = sorted({t for t in tys if _STATEFUL_TY.search(t)})
+            name = hir.callee_name(n) or n.get("method") or "?"
+            g = prog.resolve_local(n)
+            if hit and g is not None and not _passes_state_on(prog, g):
+                # a crate function that only packs or reads what it is given
+                hit = []
+            k = "%s/%s/%s" % (R, T.short(f), name)
+            if hit:
+                check.bad(R, k, hir.loc(n), "%s(..) is evaluated inside a log message (only when the log level admits it) and receives %s, which it can change: the rest of the rewrite then depends on the log level" % (name, ", ".join(hit)))
+            else:
+                check.ok(R, k, hir.loc(n), "call inside a log message over values it cannot change (%s)" % ", ".join(tys[: len(tys) // 2]))
+    macros = sum(1 for f in prog.user_fns for n in f.nodes() if (n.get("macro") or "").startswith("log::") and not any((a.get("macro") or "").startswith("log::") for a in f.ancestors(n)))
+    check.floor(R, "log macro expansions inspected", macros, 8)
+
+
 def run(check):
     reach = []
 
@@ -356,6 +416,7 @@ def run(check):
     check.guarded("PREFIX-ONCE", rule_prefix_once)
     check.guarded("COMPILER-SCOPE", rule_compiler_of_this_call)
     check.guarded("NONDET-INVENTORY", lambda c: rule_nondet(c, reach[0] if reach else set()))
+    check.guarded("LOG-ARGS", rule_log_args)
     return {
         "explanation": "Inventory and type-level rules: statics and their users against the call graph from rewrite; rustc type queries (Freeze, deep ownership walk) on Rewriter/Config; borrow kinds of the configuration on every function reachable from rewrite; who-constructs rules for per-call state; who-calls rules for the random prefix; inventory of nondeterminism sources.",
         "assumptions": ["global state inside swc (string interner, GLOBALS) does not influence output", "hash seeds of dependencies"],
